@@ -145,4 +145,13 @@ theorem tr_custom (fe : Go.FEval) (M : Prog) (fuel : Nat) (kM : Val → Prog) (h
 theorem tr_map (fe : Go.FEval) (W : Prog) (f : Val → Val) (fuel : Nat) :
     Translated.mappedGen_value fe (fun k' => W >>- k') f fuel (fun v => .ret v) = (W >>- fun v => .ret (f v)) := rfl
 
+/-- **`Generator.value` of /repo is the model's `wrapValue`**: the draw of every generator sits in a standalone group
+    labelled with the generator's `String()` (or "" as long as nobody asked for it), never discarded -/
+theorem tr_generator_value (fe : FEval) (W : Prog) (str : Option String) (fuel : Nat) (k : Val → Prog) :
+    RunEq (Translated.Generator_value fe (fun k' => W >>- k') str fuel k) ((wrapValue (str.getD "") W) >>- k) := by
+  simp only [Translated.Generator_value, wrapValue, Prog.bind]
+  cases str <;>
+  exact group_body_congr _ _ _ _ _ _ _ (bind_ret_runEq W) (fun v => RunEq.refl _)
+
+
 end Rapid
